@@ -47,7 +47,7 @@ Section LFacts.
   Notation get_check_values := (get_check_values num zero).
   Notation subs_check := (subs_check num zero).
   Notation comp_check := (comp_check num zero).
-  Notation solve_t := (linker_solve_t_M num sub absf ltb zero sev pre ebefore eafter post).
+  Notation solve_t := (linker_solve_t_body num sub absf ltb zero sev pre ebefore eafter post).
 
   (* ---------------- dictionary lemmas ---------------- *)
   Lemma find_put_same id c' l :
@@ -271,7 +271,7 @@ Section LFacts.
   Theorem solve_t_preserves_shape sel o t s :
     srel (sel_ids num sel s) s (fst (solve_t sel o t s)).
   Proof.
-    unfold Linker.linker_solve_t_M. set (ids := sel_ids num sel s).
+    unfold Linker.linker_solve_t_body. set (ids := sel_ids num sel s).
     destruct (Linker.get_check_values num zero ids t s) as [cur|e]; [|apply srel_refl].
     pose proof (zero_iters_F2 t ids (l_subs s)) as HZ.
     destruct (zero_iters ids t (l_subs s)) as [subs1 [e|]]; cbn [fst] in *.
@@ -423,7 +423,7 @@ Section LFacts.
     Lemma solve_t_kept sel o t s :
       selected (sel_ids num sel s) id = false -> kept (l_subs s) -> kept (l_subs (fst (solve_t sel o t s))).
     Proof.
-      intros Hs Hk. unfold Linker.linker_solve_t_M. set (ids := sel_ids num sel s) in *.
+      intros Hs Hk. unfold Linker.linker_solve_t_body. set (ids := sel_ids num sel s) in *.
       destruct (Linker.get_check_values num zero ids t s) as [cur|e]; [|exact Hk].
       pose proof (zero_iters_kept t ids (l_subs s) Hs Hk) as HZ.
       destruct (zero_iters ids t (l_subs s)) as [subs1 [e|]]; cbn [fst] in *; [exact HZ|].
@@ -490,7 +490,7 @@ Section LFacts.
     zero_iters before t (l_subs s) = (subs1, None) ->              (* the identifiers before it are all known *)
     solve_t sel o t s = (mkL (l_core s) subs1 (l_log s), LRaise (LExn KeyError)).
   Proof.
-    intros Hids Hbad Hcur Hz. unfold Linker.linker_solve_t_M. rewrite Hcur, Hids, zero_iters_app, Hz.
+    intros Hids Hbad Hcur Hz. unfold Linker.linker_solve_t_body. rewrite Hcur, Hids, zero_iters_app, Hz.
     cbn [Linker.zero_iters].
     pose proof (find_zero_iters_none t bad before (l_subs s) Hbad) as Hn. rewrite Hz in Hn. cbn [fst] in Hn.
     rewrite Hn. reflexivity.
